@@ -11,6 +11,8 @@ func Lookup(id string) sim.Property {
 		return C07{}
 	case "C06":
 		return C06{}
+	case "C08":
+		return C08{}
 	}
 
 	return nil
